@@ -214,6 +214,33 @@ def rw_trace_log(text: str) -> str:
   return head + pre + body + post
 
 
+def rw_drop_cfg_debug(text: str) -> str:
+  """R3d: statements and blocks under `#[cfg(debug_assertions)]` are dropped (the verified text is the release build's; what the
+  debug-only code asserts is NOT verified and is named in the unit's notes)"""
+  while True:
+    toks = rsitems.lex(text)
+    s = rsitems.sig(toks)
+    hit = None
+    for n in range(len(s) - 6):
+      seq = ''.join(toks[s[n + i]].text for i in range(7))
+      if seq == '#[cfg(debug_assertions)]':
+        hit = n; break
+    if hit is None: return text
+    start = toks[s[hit]].start
+    nxt = s[hit + 7]
+    if toks[nxt].text == '{':
+      end = toks[rsitems.match_close(toks, nxt)].end
+    else:
+      depth, end = 0, None
+      for k in s[hit + 7:]:
+        t = toks[k]
+        if t.kind == 'p' and t.text in '([{': depth += 1
+        elif t.kind == 'p' and t.text in ')]}': depth -= 1
+        elif t.kind == 'p' and t.text == ';' and depth == 0: end = t.end; break
+      if end is None: raise Undecided('R3d: no statement end after #[cfg(debug_assertions)]')
+    text = text[:start] + text[end:]
+
+
 def rw_mut_self(text: str) -> str:
   """R1: `fn f(mut self, ...) { B }` -> `fn f(self, ...) { let mut this = self; B[self:=this] }`"""
   a = fn_anatomy(text)
@@ -746,6 +773,7 @@ def build_unit(name: str, variant: Optional[str] = None, canary: bool = False) -
         elif rule == 'R1': new = rw_mut_self(new)
         elif rule == 'R4g': new = rw_option_tail(new)
         elif rule == 'R15': new = rw_trace_log(new)
+        elif rule == 'R3d': new = rw_drop_cfg_debug(new)
         elif rule == 'R2': new = rw_slice_match(new)
         elif rule == 'R10': new = rw_project_struct(new, args['keep'])
         elif rule == 'R14': new = rw_named_ops(new)
